@@ -10,6 +10,10 @@ for f in sorted(os.listdir(os.path.join(root, 'skoolkit'))):
     if f.endswith('.py'):
         tree = ast.parse(open(os.path.join(root, 'skoolkit', f)).read())
         out[f[:-3]] = {q: {'locals': canon.local_names(fn), 'exprs': sorted(canon.shapes(fn))} for q, fn in canon.outer_functions(tree)}
+from sa.core import cfacts
+canon._TABLE = {}          # the facts must be taken as they are
+facts = cfacts.load(root)
+out['__c__'] = {build: {d['name']: canon.c_locals(d) for d in decls if d.get('kind') == 'FunctionDecl' and any(c.get('kind') == 'CompoundStmt' for c in d.get('inner', []))} for build, decls in facts.items()}
 p = os.path.join(os.path.dirname(os.path.dirname(os.path.abspath(__file__))), 'sa', 'core', 'canon_names.json')
 json.dump(out, open(p, 'w'), indent=0, sort_keys=True)
-print('%d modules, %d functions' % (len(out), sum(len(v) for v in out.values())))
+print('%d modules, %d functions, %d C functions' % (len(out) - 1, sum(len(v) for k, v in out.items() if k != '__c__'), len(out['__c__'].get('plain', {}))))
